@@ -93,12 +93,33 @@ Lemma dry_run_uninitialised_current : forall frepr o deep sdir dsp,
 Proof. reflexivity. Qed.
 
 Lemma exclude_never_touched_current : forall frepr p fuel o deep sdir ddir subdir,
-  o_recursive o = false ->
-  wf_node (Dir sdir) = true -> o_dry_run o = false ->
+  wf_node (Dir sdir) = true ->
   p <> [] -> excluded cfg_current o (last p []) = true ->
   (forall es, lookup_path p (Dir ddir) <> Some (Dir es)) ->
   lookup_path p (Dir (fst (sync_ws frepr cfg_current fuel o deep sdir ddir subdir))) = lookup_path p (Dir ddir).
-Proof. intros. apply ws_exclude_never_touched; auto. Qed.
+Proof.
+  intros frepr p fuel o deep sdir ddir subdir Hwf Hp Hex Hd.
+  destruct (o_dry_run o) eqn:Edry.
+  - rewrite (sync_ws_dry_id frepr cfg_current fuel o deep sdir ddir subdir Edry (or_introl eq_refl)). reflexivity.
+  - apply ws_exclude_never_touched; auto.
+Qed.
+
+(* a cloned job contains nothing whose name matches a user pattern — at any depth, files and directories —
+   except the state point and the document, which make up the job *)
+Lemma clone_excluded_absent : forall frepr o id sd ws p,
+  o_dry_run o = false -> alookup id ws = None -> p <> [] -> clone_excl o (last p []) = true ->
+  lookup_path (id :: p) (Dir (fst (clone_or_sync frepr cfg_current o (id, Dir sd) ws))) = None.
+Proof.
+  intros frepr o id sd ws p Hdry Hn Hp Hex.
+  rewrite (clone_exact frepr cfg_current o id sd ws Hdry Hn). cbn [fst fix_excl cfg_current].
+  rewrite lookup_snoc_new by assumption. rewrite lookup_path_touch.
+  rewrite lookup_path_prune_excl by assumption. reflexivity.
+Qed.
+
+(* ... and a dry-run clone creates nothing at all *)
+Lemma clone_dry_nothing : forall frepr o id sd ws,
+  o_dry_run o = true -> alookup id ws = None -> clone_or_sync frepr cfg_current o (id, Dir sd) ws = (ws, None).
+Proof. intros frepr o id sd ws Hdry Hn. unfold clone_or_sync, copy_tree. rewrite Hn, Hdry. reflexivity. Qed.
 
 Lemma deep_by_content_job_level : forall frepr cf o sid did dsp src dst c1 m1 c2 m2,
   run_sync frepr cf o (E_job sid did dsp) src dst =
